@@ -85,6 +85,7 @@ def run(ctx):
     check_range(repo, res, fns)
     check_cut(repo, res)
     check_polygons(repo, res)
+    check_reorderings(repo, res)
     check_forwarding(repo, res)
     from .common import check_dead_params
 
@@ -647,3 +648,62 @@ def check_order(repo, res):
         res.inst("L-ORDER", f"{fname}: style arrays and the member list are permuted by the same index array `{perm}`", ok)
         if not ok:
             res.add(mk_finding(PROP, "L-ORDER", fn, fn.node, f"{fname}: per-edge style arrays and the polygon list are not permuted by the same index array `{perm}`; polygons would get another edge's style", role=perm))
+
+
+def check_reorderings(repo, res):
+    """L-POLY (re-ordering helpers): a helper of the drawing code that puts an edge's member positions in drawing order
+    (_CCW_sort) returns a *permutation* of them: the rows are selected by the result of `argsort` (or `lexsort`), never
+    by the index array of `np.unique(..., return_index=True)`, a boolean mask or a slice - those drop rows (members at
+    the same angle collapse into one, and the polygon loses a vertex)."""
+    mi = repo.modules.get("xgi.drawing.draw_utils")
+    fn = mi.functions.get("_CCW_sort") if mi else None
+    if fn is None:
+        raise AnalysisError("xgi.drawing.draw_utils._CCW_sort not found (anchor vanished)")
+    pname = fn.params[0]
+    local = {}
+    for st in ast.walk(fn.node):
+        if isinstance(st, ast.Assign):
+            for t in st.targets:
+                if isinstance(t, ast.Name):
+                    local.setdefault(t.id, []).append(st.value)
+                elif isinstance(t, (ast.Tuple, ast.List)):
+                    for i, e in enumerate(t.elts):
+                        if isinstance(e, ast.Name):
+                            local.setdefault(e.id, []).append(("unpack", st.value, i))
+
+    def is_perm(e, depth=0):
+        if depth > 4:
+            return False
+        if isinstance(e, ast.Call):
+            nm = getattr(e.func, "attr", getattr(e.func, "id", None))
+            if nm in ("argsort", "lexsort"):
+                return True
+            if nm in ("flip", "roll", "array", "asarray") and e.args:
+                return is_perm(e.args[0], depth + 1)
+            return False
+        if isinstance(e, ast.Subscript):  # order[::-1]
+            return is_perm(e.value, depth + 1) and isinstance(e.slice, ast.Slice) and e.slice.lower is None and e.slice.upper is None
+        if isinstance(e, ast.Name):
+            ds = local.get(e.id, [])
+            return bool(ds) and all(isinstance(d, ast.AST) and is_perm(d, depth + 1) for d in ds)
+        return False
+
+    rets = [r for r in ast.walk(fn.node) if isinstance(r, ast.Return) and r.value is not None]
+    n = 0
+    for r in rets:
+        v = r.value
+        n += 1
+        ok = False
+        why = "is not the input indexed by a sort permutation"
+        if isinstance(v, ast.Subscript) and isinstance(v.value, ast.Name):
+            idx = v.slice.elts[0] if isinstance(v.slice, ast.Tuple) and v.slice.elts else v.slice
+            base_ok = v.value.id == pname or all(isinstance(d, ast.AST) and isinstance(d, ast.Call) and getattr(d.func, "attr", getattr(d.func, "id", None)) in ("array", "asarray") for d in local.get(v.value.id, [None]))
+            if base_ok and is_perm(idx):
+                ok = True
+            elif base_ok:
+                why = f"selects rows with `{unparse(idx, 40)}`, which is not an argsort permutation (np.unique(..., return_index=True) keeps one row per distinct key; a mask or slice drops rows)"
+        res.inst("L-POLY", f"_CCW_sort:{r.lineno} returns a permutation of the member positions", ok)
+        if not ok:
+            res.add(mk_finding(PROP, "L-POLY", fn, r, f"_CCW_sort: the returned array {why}; members whose positions tie under the sort key (same angle from the centroid) are merged into one row, so the polygon drawn for the edge no longer has exactly its members' positions as vertices", role="ccw"))
+    if n < 1:
+        raise AnalysisError("_CCW_sort: no return found (extractor does not recognise the code)")
